@@ -465,6 +465,9 @@ type explorer struct {
 	p     *pending
 	shape string
 	first int // op index of the first request
+	// onCase, if set, is called once per evaluated (not deduplicated) crash case
+	// (class counters of multi-session histories).
+	onCase func(Case)
 
 	mu   sync.Mutex
 	seen map[[32]byte]int // state hash -> acknowledgements required when it was evaluated
@@ -473,7 +476,7 @@ type explorer struct {
 func (e *explorer) violation(id int, c Case, mode string, format string, a ...any) *failure {
 	msg := fmt.Sprintf(format, a...)
 	e.p.violated(id, c, mode, msg, nil)
-	return &failure{text: fmt.Sprintf("C33 violated (%s), workload %s\n%s%s\nreplay file: %s", mode, e.m.Script, describeCase(e.l, c), msg, e.p.path)}
+	return &failure{text: fmt.Sprintf("C33 violated (%s), workload %s\n%s%s\nreplay file: %s", mode, e.m.describe(), describeCase(e.l, c), msg, e.p.path)}
 }
 
 // violation2 reports a violation found after a second crash (during recovery).
@@ -483,7 +486,7 @@ func (e *explorer) violation2(id int, c Case, l2 *crashfs.Log, format string, a 
 	first := c
 	first.Then = nil
 	return &failure{text: fmt.Sprintf("C33 violated (crash during recovery), workload %s\nFIRST %sTHEN the restarted process (its log: %d synthetic ops for the state above, then its own writes) stops again:\n%s%s\nreplay file: %s",
-		e.m.Script, describeCase(e.l, first), l2.Genesis, describeCase(l2, *c.Then), msg, e.p.path)}
+		e.m.describe(), describeCase(e.l, first), l2.Genesis, describeCase(l2, *c.Then), msg, e.p.path)}
 }
 
 func asFailure(err error) *failure { return &failure{infra: true, text: err.Error()} }
@@ -600,10 +603,16 @@ func (e *explorer) evalWith(c Case, restart, second, strict bool) *failure {
 	if zero {
 		ev.Class("crash_with_zero_filled_loss")
 	}
-	if c.K < e.first {
+	switch {
+	case e.m.Sessions > 1 && c.K < e.first:
+		ev.Class("crash_during_startup_of_a_later_session")
+	case c.K < e.first:
 		ev.Class("crash_during_initial_save")
-	} else if c.K > e.m.CloseStart {
+	case c.K > e.m.CloseStart:
 		ev.Class("crash_during_clean_close")
+	}
+	if e.onCase != nil {
+		e.onCase(c)
 	}
 
 	mode := "crash"
@@ -703,7 +712,15 @@ func (e *explorer) checkClean() *failure {
 		}
 		return e.violation(id, c, "clean", "the cluster restarted after a clean Close cannot be read back: %v", err)
 	}
-	if d := diffSnap(e.live, s2); d != "" {
+	live := e.live
+	if len(e.m.CrashAborted) > 0 && knownOpen() {
+		// open finding, multi-session form: a transaction was in flight when an
+		// EARLIER session of this history crashed; the restart re-bumps the
+		// producer epoch of exactly those producer ids. Only that epoch, only when
+		// it went up, is left out of the comparison.
+		live = maskRebumped(e.live, s2, e.m.CrashAborted)
+	}
+	if d := diffSnap(live, s2); d != "" {
 		return e.violation(id, c, "clean", "clean Close + restart does not recover the identical state: %s", d)
 	}
 	open := 0
@@ -734,6 +751,11 @@ func scriptShape(s Script) string {
 
 func newExplorer(name string, m *Model, l *crashfs.Log, live *Snap) *explorer {
 	e := &explorer{m: m, l: l, live: live, shape: scriptShape(m.Script), seen: map[[32]byte]int{}}
+	if m.Sessions > 0 {
+		// a session of a multi-session history: the shape is the whole history so far
+		h := sha256.Sum256([]byte(m.History))
+		e.shape = fmt.Sprintf("%s-S%d-%x", m.Script.Name, m.Sessions, h[:6])
+	}
 	for _, mk := range l.Marks {
 		e.first = mk.At
 		break
@@ -952,6 +974,50 @@ func genScript(t *rapid.T) Script {
 	return s
 }
 
+// dirtyPoints lists the crash points k in (lo, hi] at which some inode has
+// unsynced data.
+func dirtyPoints(l *crashfs.Log, lo, hi int) []int {
+	var out []int
+	for k := lo + 1; k <= hi; k++ {
+		switch l.Ops[k-1].Kind {
+		case crashfs.OpWrite, crashfs.OpTruncate:
+			out = append(out, k)
+		case crashfs.OpSync:
+			if len(l.Dirty(k)) > 0 {
+				out = append(out, k)
+			}
+		}
+	}
+	return out
+}
+
+// sampledCase turns generated numbers into the loss choice of every inode that
+// is dirty at crash point k.
+func sampledCase(l *crashfs.Log, k int, choices []int) Case {
+	c := Case{K: k}
+	for i, d := range l.Dirty(k) {
+		ch := choices[i%len(choices)] + i
+		var cut crashfs.Cut
+		switch mode := ch % 6; mode {
+		case 0:
+			cut = d.All()
+		case 1:
+			cut = crashfs.Cut{}
+		default: // 2 whole ops, 3 torn, 4 whole ops + zero-filled loss, 5 torn + zero-filled loss
+			cut.Ops = (ch / 6) % len(d.Pending)
+			if L := l.WriteLen(d.Pending[cut.Ops]); L >= 2 && mode%2 == 1 {
+				cut.Bytes = 1 + (ch/64)%(L-1)
+			}
+			cut.Zero = mode >= 4
+		}
+		if c.Cuts == nil {
+			c.Cuts = map[int]crashfs.Cut{}
+		}
+		c.Cuts[d.Ino] = cut
+	}
+	return c
+}
+
 // TestGenerated: generated workloads; crash points and loss choices are sampled.
 func TestGenerated(t *testing.T) {
 	if replaying() != "" {
@@ -983,44 +1049,13 @@ func TestGenerated(t *testing.T) {
 		e := explore(t, s)
 		report(t, e.checkClean())
 		// crash points at which some inode has unsynced data
-		var dirtyKs []int
-		for k := 1; k <= len(e.l.Ops); k++ {
-			switch e.l.Ops[k-1].Kind {
-			case crashfs.OpWrite, crashfs.OpTruncate:
-				dirtyKs = append(dirtyKs, k)
-			case crashfs.OpSync:
-				if len(e.l.Dirty(k)) > 0 {
-					dirtyKs = append(dirtyKs, k)
-				}
-			}
-		}
+		dirtyKs := dirtyPoints(e.l, 0, len(e.l.Ops))
 		for _, p := range picks {
 			k := p.kfrac % (len(e.l.Ops) + 1)
 			if p.dirty && len(dirtyKs) > 0 {
 				k = dirtyKs[p.kfrac%len(dirtyKs)]
 			}
-			c := Case{K: k}
-			for i, d := range e.l.Dirty(k) {
-				ch := p.choices[i%len(p.choices)] + i
-				var cut crashfs.Cut
-				switch mode := ch % 6; mode {
-				case 0:
-					cut = d.All()
-				case 1:
-					cut = crashfs.Cut{}
-				default: // 2 whole ops, 3 torn, 4 whole ops + zero-filled loss, 5 torn + zero-filled loss
-					cut.Ops = (ch / 6) % len(d.Pending)
-					if L := e.l.WriteLen(d.Pending[cut.Ops]); L >= 2 && mode%2 == 1 {
-						cut.Bytes = 1 + (ch/64)%(L-1)
-					}
-					cut.Zero = mode >= 4
-				}
-				if c.Cuts == nil {
-					c.Cuts = map[int]crashfs.Cut{}
-				}
-				c.Cuts[d.Ino] = cut
-			}
-			report(t, e.eval(c, p.restart, p.second))
+			report(t, e.eval(sampledCase(e.l, k, p.choices), p.restart, p.second))
 		}
 		e.p.done()
 	})
